@@ -25,6 +25,11 @@ func init() {
 // part 2 calls the public API while the agent's loop goroutine is parked in the middle of a task.
 func runC10(c *core.Ctx) {
 	if c.T.Bias(1, 6, "part2") {
+		if c.T.Bias(1, 4, "part4") {
+			c.Knob("part", 4)
+			runC10Owner(c)
+			return
+		}
 		if c.T.Bias(1, 3, "part3") {
 			c.Knob("part", 3)
 			runC10OneShot(c)
